@@ -19,10 +19,13 @@ var extModelDoc = map[string]string{}
 
 // packages whose functions are side-effect free as far as repo objects are concerned (result arbitrary, heap unchanged)
 var purePkgs = []string{"fmt", "strings", "strconv", "errors", "time", "math", "unicode", "unicode/utf8", "unicode/utf16", "context", "bytes", "sort", "slices", "maps",
-	"encoding/hex", "encoding/base64", "math/rand", "math/bits", "reflect", "os", "regexp", "sync/atomic", "path",
+	"encoding/hex", "encoding/base64", "hash/maphash", "github.com/hashicorp/golang-lru/v2", "math/rand", "math/bits", "reflect", "os", "regexp", "sync/atomic", "path",
 	"github.com/yorkie-team/yorkie/server/logging", "go.uber.org/zap", "github.com/yorkie-team/yorkie/server/profiling/prometheus",
 	"github.com/yorkie-team/yorkie/server/profiling", "google.golang.org/protobuf/types/known/timestamppb", "github.com/rs/xid",
 	"connectrpc.com/connect", "github.com/yorkie-team/yorkie/api/types/events"}
+
+// pure external functions that are also deterministic (modelled as uninterpreted functions of their arguments)
+var deterministicPure = map[string]bool{"hash/maphash.Comparable": true}
 
 func isPurePkg(path string) bool {
 	for _, p := range purePkgs {
@@ -104,6 +107,41 @@ func (e *Exec) callVal(s *State, cc *ssa.CallCommon, args []Val, setRes func(*St
 	sig := cc.Signature()
 	rt := resultType(sig)
 	unknown := func(why string, havoc bool) bool {
+		if !havoc && deterministicPure[why] {
+			// a pure function of its (scalar) arguments: an uninterpreted function, so equal arguments give equal results
+			var terms, sorts []string
+			okAll := true
+			for i, a := range args {
+				var t types.Type
+				if i < sig.Params().Len() {
+					t = sig.Params().At(i).Type()
+				}
+				if t == nil {
+					okAll = false
+					break
+				}
+				ts, ss := e.leaves(t, a)
+				terms = append(terms, ts...)
+				sorts = append(sorts, ss...)
+			}
+			if okAll && sig.Results().Len() == 1 {
+				rs := sortOf(sig.Results().At(0).Type())
+				if rs == "Int" || rs == "Bool" || rs == "Str" {
+					e.note("pure-deterministic(assumed)", why)
+					f := "|ext." + sanitize(why) + "|"
+					e.declSort(rs)
+					e.decl(fmt.Sprintf("(declare-fun %s (%s) %s)", f, strings.Join(sorts, " "), rs))
+					r := S("%s", app(f, terms...))
+					if bt, ok := sig.Results().At(0).Type().Underlying().(*types.Basic); ok {
+						if lo, hi, ok := intRange(bt); ok {
+							s.assume("(and (<= %s %s) (<= %s %s))", lo, r.T, r.T, hi)
+						}
+					}
+					setRes(s, r)
+					return false
+				}
+			}
+		}
 		if havoc {
 			e.note("unknown(havoc-all)", why)
 			// address-taken locals handed to the callee may be written
